@@ -341,6 +341,233 @@ def coq_fam(f):
     return 'FIdx "%s" %d' % (f[1], f[2])
 
 
+# ---------------------------------------------------------------------------------------------------
+# FIELD MAPS (strict): which attribute goes under which key (dentry of Model/DumpProto.v) and which key
+# is read into which attribute through which conversion (lentry).  Every statement of the five
+# functions must match one of the patterns below (on ast.unparse text); anything else -> TranslateError.
+import re
+
+CONV_SUFFIX = {"": "CNone", ".astype(int)": "CAstypeInt", ".item(0)": "CItem0",
+               ".astype(int).tolist()": "CAstypeIntTolist", "[-1]": "CLast"}
+LABEL_ATTR = "qn"
+
+
+def read_expr(text, d="npload"):
+    """expression reading one constant key of the loaded file -> (key, conv)"""
+    m = re.fullmatch(r"int\(%s\['(\w+)'\]\)" % d, text)
+    if m:
+        return m.group(1), "CInt"
+    m = re.fullmatch(r"bool\(%s\['(\w+)'\]\)" % d, text)
+    if m:
+        return m.group(1), "CBool"
+    m = re.fullmatch(r"%s\['(\w+)'\](.*)" % d, text)
+    if m and m.group(2) in CONV_SUFFIX:
+        return m.group(1), CONV_SUFFIX[m.group(2)]
+    raise TranslateError("read expression %s" % text)
+
+
+def fm_chain_dump(fn, extra_attrs):
+    out = []
+    stmts = [ast.unparse(x) for x in fn.body]
+    idiom = 0
+    for t in stmts:
+        if t in ("if other_attrs is None:\n    other_attrs = []\nelif isinstance(other_attrs, str):\n    other_attrs = [other_attrs]",
+                 "assert isinstance(other_attrs, list)", "data_dict = dict()"):
+            continue
+        m = re.fullmatch(r"data_dict\['(\w+)'\] = '([^']*)'", t)
+        if m:
+            out.append(("DConstStr", m.group(1), m.group(2)))
+            continue
+        m = re.fullmatch(r"data_dict\['(\w+)'\] = self\.site_num", t)
+        if m:
+            out.append(("DNSites", m.group(1)))
+            continue
+        m = re.fullmatch(r"for idx, mt in enumerate\(self\):\n    data_dict\[f'(\w+)\{idx\}'\] = mt\.array", t)
+        if m:
+            out.append(("DTensorFam", m.group(1)))
+            continue
+        m = re.fullmatch(r"for attr in (\[[^\]]*\]) \+ other_attrs:\n    data_dict\[attr\] = getattr\(self, attr\)", t)
+        if m:
+            attrs = ast.literal_eval(m.group(1)) + list(extra_attrs)
+            for a in attrs:
+                if not isinstance(a, str):
+                    raise TranslateError("attribute list")
+                out.append(("DLabelList", a) if a == LABEL_ATTR else ("DScalar", a, a))
+            continue
+        if t == "qn = data_dict['%s']" % LABEL_ATTR and idiom == 0:
+            idiom = 1
+            continue
+        if t == "arr = np.empty(len(qn), object)" and idiom == 1:
+            idiom = 2
+            continue
+        if t == "arr[:] = qn" and idiom == 2:
+            idiom = 3
+            continue
+        if t == "data_dict['%s'] = arr" % LABEL_ATTR and idiom == 3:
+            idiom = 4
+            out.append(("DLabelList", LABEL_ATTR))
+            continue
+        m = re.fullmatch(r"for i in range\(self\.site_num \+ 1\):\n    data_dict\[f'(\w+)\{i\}'\] = qn\[i\]", t)
+        if m and idiom >= 1:
+            out.append(("DLabelFam", m.group(1), 1))
+            continue
+        if re.fullmatch(r"try:\n    np\.savez\(fname, \*\*data_dict\)\nexcept Exception:\n    logger\.exception\(.*\)", t):
+            continue
+        raise TranslateError("MatrixProduct.dump: unrecognised statement: %s" % t[:90])
+    if idiom not in (0, 4):
+        raise TranslateError("MatrixProduct.dump: incomplete object-array re-wrap of qn")
+    return out
+
+
+def fm_scalar_stmt(t, obj="mp"):
+    m = re.fullmatch(r"%s\.(\w+) = (.+)" % obj, t)
+    if not m:
+        return None
+    k, c = read_expr(m.group(2))
+    if m.group(1) == LABEL_ATTR:
+        return ("LLabelList", k, c)
+    return ("LScalar", m.group(1), k, c)
+
+
+def fm_chain_load(fn, written_version):
+    out = []
+    version_var = None
+    for node in fn.body:
+        t = ast.unparse(node)
+        if t in ("npload = np.load(fname, allow_pickle=True)", "mp = cls()", "mp.model = model", "return mp", "mp.%s = []" % LABEL_ATTR):
+            continue
+        m = re.fullmatch(r"nsites = (.+)", t)
+        if m:
+            k, c = read_expr(m.group(1))
+            out.append(("LNSites", k, c))
+            continue
+        m = re.fullmatch(r"for i in range\(nsites\):\n    mt = npload\[f'(\w+)\{i\}'\]\n    if np\.iscomplexobj\(mt\):\n        mp\.dtype = backend\.complex_dtype\n"
+                         r"    else:\n        mp\.dtype = backend\.real_dtype\n    mp\.append\(mt\)", t)
+        if m:
+            out.append(("LTensorFam", m.group(1)))
+            continue
+        m = re.fullmatch(r"for i in range\(nsites \+ 1\):\n    subqn = npload\[f'(\w+)\{i\}'\](.*)\n    mp\.%s\.append\(subqn\)" % LABEL_ATTR, t)
+        if m and m.group(2) in CONV_SUFFIX:
+            out.append(("LLabelFam", m.group(1), 1, CONV_SUFFIX[m.group(2)]))
+            continue
+        m = re.fullmatch(r"(\w+) = npload\['version'\]", t)
+        if m:
+            version_var = m.group(1)
+            continue
+        if isinstance(node, ast.If) and version_var and ast.unparse(node.test).startswith(version_var + " "):
+            cur = node
+            taken = None
+            while True:
+                tt = ast.unparse(cur.test)
+                m1 = re.fullmatch(r"%s == '([^']*)'" % version_var, tt)
+                m2 = re.fullmatch(r"%s in (\[[^\]]*\])" % version_var, tt)
+                if m1:
+                    vs = [m1.group(1)]
+                elif m2:
+                    vs = list(ast.literal_eval(m2.group(1)))
+                else:
+                    raise TranslateError("version test %s" % tt)
+                if written_version in vs and taken is None:
+                    taken = (vs, cur.body)
+                if len(cur.orelse) == 1 and isinstance(cur.orelse[0], ast.If):
+                    cur = cur.orelse[0]
+                    continue
+                if cur.orelse and not all(isinstance(x, ast.Raise) for x in cur.orelse):
+                    raise TranslateError("else-branch of the version dispatch must raise")
+                break
+            if taken is None:
+                return None
+            out.append(("LVersionIn", "version", taken[0]))
+            for b in taken[1]:
+                bt = ast.unparse(b)
+                if bt.startswith("logger."):
+                    continue
+                e = fm_scalar_stmt(bt)
+                if e is None:
+                    raise TranslateError("Mps.load version branch: %s" % bt[:80])
+                out.append(e)
+            continue
+        e = fm_scalar_stmt(t)
+        if e is not None:
+            out.append(e)
+            continue
+        raise TranslateError("%s: unrecognised statement: %s" % (fn.name, t[:90]))
+    return out
+
+
+def fm_tree_dump(fn, extra_attrs):
+    out = []
+    for node in fn.body:
+        t = ast.unparse(node)
+        if t == "if other_attrs is None:\n    other_attrs = []":
+            continue
+        m = re.fullmatch(r"data_dict = \{'version': '([^']*)', 'nsites': len\(self\)\}", t)
+        if m:
+            out += [("DConstStr", "version", m.group(1)), ("DNSites", "nsites")]
+            continue
+        if t == "for attr in other_attrs:\n    data_dict[attr] = getattr(self, attr)":
+            out += [("DScalar", a, a) for a in extra_attrs]
+            continue
+        m = re.fullmatch(r"for i, node in enumerate\(self\.node_list\):\n    data_dict\[f'(\w+)\{i\}'\] = node\.tensor\n    data_dict\[f'(\w+)\{i\}'\] = node\.qn", t)
+        if m:
+            out += [("DTensorFam", m.group(1)), ("DLabelFam", m.group(2), 0)]
+            continue
+        if re.fullmatch(r"try:\n    np\.savez\(fname, \*\*data_dict\)\nexcept Exception:\n    logger\.exception\(.*\)", t):
+            continue
+        raise TranslateError("TTNBase.dump: unrecognised statement: %s" % t[:90])
+    return out
+
+
+def fm_tree_load(fn, extra_attrs):
+    out = []
+    for node in fn.body:
+        t = ast.unparse(node)
+        if t in ("npload = np.load(fname, allow_pickle=True)", "nodes = []", "copy_connection(basis.node_list, nodes)",
+                 "instance = cls(basis, root=nodes[0])", "return instance"):
+            continue
+        m = re.fullmatch(r"assert npload\['version'\] == '([^']*)'", t)
+        if m:
+            out.append(("LVersionIn", "version", [m.group(1)]))
+            continue
+        m = re.fullmatch(r"nsites = (.+)", t)
+        if m:
+            k, c = read_expr(m.group(1))
+            out.append(("LNSites", k, c))
+            continue
+        m = re.fullmatch(r"for i in range\(nsites\):\n    tensor = npload\[f'(\w+)\{i\}'\]\n    qn = npload\[f'(\w+)\{i\}'\]\n    nodes\.append\(TreeNodeTensor\(tensor, qn\)\)", t)
+        if m:
+            out += [("LTensorFam", m.group(1)), ("LLabelFam", m.group(2), 0, "CNone")]
+            continue
+        if t == "for attr in other_attrs:\n    setattr(instance, attr, npload[attr])":
+            out += [("LScalar", a, a, "CNone") for a in extra_attrs]
+            continue
+        raise TranslateError("TTNBase.load: unrecognised statement: %s" % t[:90])
+    return out
+
+
+def coq_str(x):
+    return '"%s"' % x
+
+
+def coq_entry(e):
+    tag = e[0]
+    if tag in ("DConstStr", "DScalar"):
+        return "%s %s %s" % (tag, coq_str(e[1]), coq_str(e[2]))
+    if tag in ("DNSites", "DLabelList", "DTensorFam", "LTensorFam"):
+        return "%s %s" % (tag, coq_str(e[1]))
+    if tag == "DLabelFam":
+        return "DLabelFam %s %d" % (coq_str(e[1]), e[2])
+    if tag == "LVersionIn":
+        return "LVersionIn %s [%s]" % (coq_str(e[1]), "; ".join(coq_str(v) for v in e[2]))
+    if tag in ("LNSites", "LLabelList"):
+        return "%s %s %s" % (tag, coq_str(e[1]), e[2])
+    if tag == "LLabelFam":
+        return "LLabelFam %s %d %s" % (coq_str(e[1]), e[2], e[3])
+    if tag == "LScalar":
+        return "LScalar %s %s %s" % (coq_str(e[1]), coq_str(e[2]), e[3])
+    raise TranslateError("render %r" % (e,))
+
+
 def main(repo):
     rd = lambda *p: ast.parse(open(os.path.join(repo, "renormalizer", *p)).read())
     mp_t, mps_t, mpdm_t, mpo_t, tree_t = rd("mps", "mp.py"), rd("mps", "mps.py"), rd("mps", "mpdm.py"), rd("mps", "mpo.py"), rd("tn", "tree.py")
@@ -428,13 +655,31 @@ def main(repo):
     lines.append("Definition legacy_reads_mps : list (string * list fam) :=\n  [%s]." %
                  ";\n   ".join('("%s", [%s])' % (v, "; ".join(coq_fam(f) for f in rf)) for v, rf in legacy))
     lines.append("")
+    # ---- field maps
+    d_mp = get_method(mp_t, "MatrixProduct", "dump")
+    fm = {
+        "mps": (fm_chain_dump(d_mp, mps_attrs), fm_chain_load(get_method(mps_t, "Mps", "load"), w_mp.version_written), 1),
+        "mpo": (fm_chain_dump(d_mp, []), fm_chain_load(get_method(mp_t, "MatrixProduct", "load"), w_mp.version_written), 1),
+        "ttns": (fm_tree_dump(get_method(tree_t, "TTNBase", "dump"), ttns_dump_attrs),
+                 fm_tree_load(get_method(tree_t, "TTNBase", "load"), ttns_load_attrs), 0),
+    }
+    lines.append("(* FIELD MAPS: dentry = what the dumper stores under a key, lentry = what the loader reads into which attribute (see Model/DumpProto.v) *)")
+    for nm, (dmap, lmap, loff) in fm.items():
+        lines.append("Definition dmap_%s : list dentry :=\n  [%s]." % (nm, ";\n   ".join(coq_entry(e) for e in dmap)))
+        lines.append("Definition lmap_%s : list lentry :=\n  [%s]." % (nm, ";\n   ".join(coq_entry(e) for e in (lmap or []))))
+        lines.append("")
+    lines.append("(* object kinds of the property: (kind, dump map, load map, number of label arrays minus number of tensors) *)")
+    lines.append("Definition field_kinds : list (string * list dentry * list lentry * nat) :=\n"
+                 "  [(\"Mps\", dmap_mps, lmap_mps, 1); (\"MpDm\", dmap_mps, lmap_mps, 1); (\"TTNS\", dmap_ttns, lmap_ttns, 0)].")
+    lines.append("")
     lines.append("(* does the dumper swallow every exception of np.savez (try/except Exception without re-raise)? *)")
     lines.append("Definition dump_swallows_savez_errors : list (string * bool) := [(\"MatrixProduct.dump\", %s); (\"TTNBase.dump\", %s)]." %
                  (str(w_mp.savez_swallow).lower(), str(w_tn.savez_swallow).lower()))
     text = "\n".join(lines) + "\n"
     info = {"pairs": [{"kind": l, "version": v, "written": wf, "read": rf} for l, v, wf, rf in pairs],
             "legacy": [{"version": v, "read": rf} for v, rf in legacy],
-            "swallow": {"MatrixProduct.dump": w_mp.savez_swallow, "TTNBase.dump": w_tn.savez_swallow}}
+            "swallow": {"MatrixProduct.dump": w_mp.savez_swallow, "TTNBase.dump": w_tn.savez_swallow},
+            "fieldmaps": {k: {"dump": v[0], "load": v[1], "loff": v[2]} for k, v in fm.items()}}
     return text, info
 
 
